@@ -30,7 +30,7 @@ let kv (t : string) : string * string =
 let acts_of_mode m =
   let strip suf m = let ls = String.length suf and lm = String.length m in
     if lm >= ls && String.sub m (lm - ls) ls = suf then String.sub m 0 (lm - ls) else m in
-  let m = strip "@q" (strip "~" m) in
+  let m = strip "@q" (strip "~" (strip "^" m)) in
   match m with
   | "close" -> [T_Close] | "cancel" -> [T_Cancel] | "both" -> [T_Close; T_Cancel] | "close2" -> [T_Close; T_Close]
   | _ -> failwith ("mode " ^ m)
